@@ -105,7 +105,16 @@ def alpha_key(node: ast.AST, keep: Iterable[str] = ()) -> str:
     renamed v1, v2 ... by first occurrence (names in `keep`, attribute names,
     keyword names and constants are kept)."""
     keep = set(keep)
-    node = copy.deepcopy(node)
+    # a private copy without the parent links (deepcopy would follow them)
+    src = unparse(node)
+    try:
+        if isinstance(node, ast.expr):
+            node = ast.parse(src, mode="eval").body
+        else:
+            mod = ast.parse(src)
+            node = mod.body[0] if len(mod.body) == 1 else mod
+    except SyntaxError:
+        return " ".join(src.split())
     mapping: dict[str, str] = {}
 
     class R(ast.NodeTransformer):
